@@ -204,6 +204,40 @@ def run(ctx, rep):
     except AnchorMissing as e:
         rep.machinery('ANCHOR-MISSING %s' % e)
 
+    # ---------------- T3.cont a continuation slot is accepted only if it carries the run's checksum
+    PR = facts.fns.get(BUILDER + '::process')
+    if PR is None:
+        rep.machinery('ANCHOR-MISSING LongNameBuilder::process')
+    else:
+        dp = Deps(PR)
+        copies = [b for b, t in PR.calls() if (t.get('callee') or '').endswith('::copy_name_to_slice')]
+        # blocks that (re)start a run: they store the slot's checksum into the builder
+        edges = set()
+        for bi in PR.reachable():
+            for st_ in PR.blocks[bi]['stmts']:
+                if st_['k'] == 'assign' and any('f' in e and e.get('n') == 'chksum' for e in st_['lhs']['p']):
+                    edges |= {(bi, x) for x in PR.succ(bi)}
+            t = PR.blocks[bi]['term']
+            if t['k'] != 'switch':
+                continue
+            src = switch_source(PR, bi)
+            if src and src['kind'] == 'binop' and src['op'] in ('Ne', 'Eq'):
+                toks = dp.of_operand(src['a']) | dp.of_operand(src['b'])
+                if ('field', 'chksum') in toks and any(tk[0] == 'call' and tk[1].endswith('::checksum') for tk in toks):
+                    same = zero_targets(t) if src['op'] == 'Ne' else nonzero_targets(t)
+                    edges |= {(bi, x) for x in same}
+        ok = bool(copies) and all(edge_dominates(PR, edges, c) for c in copies)
+        rep.oblige('T3.cont', PR.name, ok=ok, nontrivial=True,
+                   sample={'fn': PR.name, 'rule': 'the name part of a slot is copied into the accumulator only after the slot '
+                           'started a new run (its checksum is stored) or its checksum compared equal to the run\'s'})
+        if not copies:
+            rep.machinery('ANCHOR-MISSING copy_name_to_slice call in LongNameBuilder::process')
+        elif not ok:
+            rep.violation('T3', vkey('T3', PR.name, 'continuation-checksum', ''), PR.loc(PR.span),
+                          'a continuation slot of a long-name run is accepted without its checksum having been compared with '
+                          'the checksum of the run\'s first slot: slots of two different entries can be spliced into one name '
+                          '(only the first slot is later validated against the short entry)')
+
     # ---------------- T3b paired reset on the skip arm
     clears = [b for b, t in R.calls() if (t.get('callee') or '').endswith('LongNameBuilder::clear')]
     # the local that becomes offset_range.0 of the returned entry
